@@ -106,6 +106,19 @@ def run_one(check, case):
     return out
 
 
+def make_case(check, check_id, seed, i, tier):
+    """Run i of VERIF_SEED=seed: the generated case plus its environment knobs - a pure function of (seed, check, i)."""
+    case = check.gen(core.rng_for(seed, check_id, i), tier)
+    case["seed"] = seed
+    case["run"] = i
+    if getattr(check, "ENV_KNOBS", True) and "env" not in case:
+        # own PRNG stream: the knobs never perturb what gen() draws
+        case["env"] = envmod.knobs(random.Random(core.splitmix64(core.run_seed(seed, check_id, i) ^ 0xE17E17)))
+        for k in getattr(check, "ENV_EXCLUDE", ()):
+            case["env"].pop(k, None)
+    return case
+
+
 def _chunk(args):
     check_id, seed, tier, idxs, keep_samples = args
     check = _CHECK
@@ -114,16 +127,8 @@ def _chunk(args):
            "points": 0, "ops": 0, "nodes": 0, "crashes": 0, "digests": set(), "samples": [], "discarded": 0,
            "errors": [], "schedules": set()}
     for i in idxs:
-        rng = core.rng_for(seed, check_id, i)
         try:
-            case = check.gen(rng, tier)
-            case["seed"] = seed
-            case["run"] = i
-            if getattr(check, "ENV_KNOBS", True) and "env" not in case:
-                # own PRNG stream: the knobs never perturb what gen() draws
-                case["env"] = envmod.knobs(random.Random(core.splitmix64(core.run_seed(seed, check_id, i) ^ 0xE17E17)))
-                for k in getattr(check, "ENV_EXCLUDE", ()):
-                    case["env"].pop(k, None)
+            case = make_case(check, check_id, seed, i, tier)
             for k in (case.get("env") or {}):
                 res["probes"]["env_knob:" + k] = res["probes"].get("env_knob:" + k, 0) + 1
             out = run_one(check, case)
